@@ -304,8 +304,9 @@ def c11(chk):
 def c12(chk):
     chk.rule = ("programs of one or two (thorough: three) atoms covering every result type and error kind x three contexts x "
                 "all 48 entry points (24 string-level, 24 tree-level); non-trivial = distinct (program, context, entry point)")
-    prog_model(chk, "entry", 1 if chk.tier == "quick" else 2, {"entry", "panic"}, ["entry_nontrivial"],
-               workers=12 if chk.tier == "quick" else 16, timeout=3000)
+    prog_model(chk, "entry", 1, {"entry", "panic"}, ["entry_nontrivial"], workers=12 if chk.tier == "quick" else 16, timeout=3000)
+    if chk.tier != "quick":
+        prog_model(chk, "entrydeep", 2, {"entry", "panic"}, ["entry_nontrivial"], workers=16, timeout=3000)
     # ill-formed and unspecified inputs as well: precompilation errors are returned unchanged, string = tree level
     tokens(chk, "core", 4 if chk.tier == "quick" else 5, {"entry_consistency", "panic"}, ["if", "unspec"])
     # source TEXTS (not token sequences): a typed string-level entry point must not read the text in its own way
